@@ -1,9 +1,11 @@
 /- Line-protocol handler for the source-decomposition model of C03 (over Rat). -/
 import Lcapy.Model.CRat
 import Lcapy.Model.Decompose
+import Lcapy.Model.SuperSolve
 import Lcapy.Spec.Noise
+import Lcapy.Driver.C01
 namespace Lcapy.Driver.C03
-open Lcapy Lcapy.Decompose
+open Lcapy Lcapy.Decompose Lcapy.SuperSolve
 
 def parseTerm (t : String) : Option (Term Rat) :=
   match t.splitOn ":" with
@@ -16,8 +18,92 @@ def parseTerm (t : String) : Option (Term Rat) :=
       some (Term.tr i c)
   | _ => none
 
+/-- term tokens with explicit transient waveforms: `dc:c`, `ac:w:a:b` (a cos wt + b sin wt), `ep:c:k:p`
+    (c t^k/k! e^{pt} u(t)), `dl:c` (c δ(t)); the transient waveforms are collected into a table -/
+def parseTerms (toks : List String) : Option (List (Term Rat) × List (Laplace.Term Rat)) :=
+  toks.foldlM (fun (acc : List (Term Rat) × List (Laplace.Term Rat)) t =>
+    match t.splitOn ":" with
+    | ["dc", c] => (parseRat c).map (fun c => (acc.1 ++ [Term.dc c], acc.2))
+    | ["ac", w, a, b] => do
+        let w ← parseRat w; let a ← parseRat a; let b ← parseRat b
+        some (acc.1 ++ [Term.ac w a b], acc.2)
+    | ["ep", c, k, p] => do
+        let c ← parseRat c; let k ← k.toNat?; let p ← parseRat p
+        some (acc.1 ++ [Term.tr acc.2.length c], acc.2 ++ [Laplace.Term.ep 1 k p 0])
+    | ["dl", c] => do
+        let c ← parseRat c
+        some (acc.1 ++ [Term.tr acc.2.length c], acc.2 ++ [Laplace.Term.dl 1 0 0])
+    | _ => none) ([], [])
+
+/-- the same with checked Gaussian-rational values (`re,im`): complex exponents stand for sinusoids -/
+def parseTermsG (toks : List String) : Option (List (Term GQ) × List (Laplace.Term GQ)) :=
+  toks.foldlM (fun (acc : List (Term GQ) × List (Laplace.Term GQ)) t =>
+    match t.splitOn ":" with
+    | ["dc", c] => (GQ.parse c).map (fun c => (acc.1 ++ [Term.dc c], acc.2))
+    | ["ac", w, a, b] => do
+        let w ← GQ.parse w; let a ← GQ.parse a; let b ← GQ.parse b
+        some (acc.1 ++ [Term.ac w a b], acc.2)
+    | ["ep", c, k, p] => do
+        let c ← GQ.parse c; let k ← k.toNat?; let p ← GQ.parse p
+        some (acc.1 ++ [Term.tr acc.2.length c], acc.2 ++ [Laplace.Term.ep 1 k p 0])
+    | ["dl", c] => do
+        let c ← GQ.parse c
+        some (acc.1 ++ [Term.tr acc.2.length c], acc.2 ++ [Laplace.Term.dl 1 0 0])
+    | _ => none) ([], [])
+
+def XLofG (tbl : List (Laplace.Term GQ)) (s : GQ) : Nat → GQ :=
+  fun i => match tbl[i]? with
+    | some t => Laplace.Term.L (fun _ => 1) s t
+    | none => 0
+
+def parseSupLine (toks : List String) : Option Line :=
+  match toks with
+  | name :: n1 :: n2 :: "terms" :: rest =>
+      (parseTerms rest).map (fun (ts, tbl) => Line.src ⟨name, n1, n2, ts, tbl⟩)
+  | _ => some (Line.plain toks)
+
+def parseNoiseLine (idx : Nat) (toks : List String) : Option NLine :=
+  match toks with
+  | [name, n1, n2, "noise", a] => (parseRat a).map (fun a => NLine.src ⟨name, name.startsWith "V", n1, n2, a, s!"auto{idx}"⟩)
+  | [name, n1, n2, "noise", a, nid] => (parseRat a).map (fun a => NLine.src ⟨name, name.startsWith "V", n1, n2, a, nid⟩)
+  | _ => some (NLine.plain toks)
+
+def fmtAc (l : List (Rat × GQ)) : String :=
+  "|".intercalate (l.map (fun (w, g) => s!"{ratToStr w}:{g}"))
+
 def handle (toks : List String) : Option String :=
   match toks with
+  | "sup.terms" :: s0 :: rest => some <|
+      -- Laplace form of a signal given by its raw terms, part by part (checked arithmetic: a pole gives `undef`)
+      match GQ.parse s0, parseTermsG rest with
+      | some s, some (ts, tbl) =>
+        let d := decompose ts
+        let (dcL, acL, trL) := decompLapParts (XLofG tbl s) s d
+        let ac := "|".intercalate (acL.map (fun p => s!"{p.1}:{p.2}"))
+        s!"dc={dcL} ac={ac} tr={trL} total={decompLap (XLofG tbl s) s d}"
+      | _, _ => "bad-op"
+  | "sup.solve" :: s0 :: "||" :: rest => some <|
+      match parseRat s0, (Lcapy.Driver.C01.splitSep rest).mapM parseSupLine with
+      | some s, some ls =>
+        match run s ls with
+        | .fail m => s!"error {m}"
+        | .ivp vals => "ok ivp " ++ " ".intercalate (vals.map (fun (n, v) => s!"{n}={v}"))
+        | .super groups vals =>
+          s!"ok super {",".intercalate groups} " ++
+            " ".intercalate (vals.map (fun r => s!"{r.node}={r.dc};{fmtAc r.ac};{r.tr};{r.total}"))
+      | _, _ => "bad-op"
+  | "noise.resp" :: w :: pairs :: "||" :: rest => some <|
+      -- per-source complex amplitude responses H_k(jw)·a_k between node pairs, and the spec's noise power
+      let prs := (pairs.splitOn ",").filterMap (fun p => match p.splitOn ":" with | [a, b] => some (a, b) | _ => none)
+      match parseRat w, ((Lcapy.Driver.C01.splitSep rest).zipIdx.mapM (fun (l, i) => parseNoiseLine i l)) with
+      | some w, some ls =>
+        match noiseResp w ls prs with
+        | .error m => s!"error {m}"
+        | .ok res =>
+          "ok " ++ " ".intercalate (res.map (fun ((np, nm), vals) =>
+            let pw := Lcapy.Noise.noisePower (groupsOf vals)
+            s!"{np}:{nm}={ratToStr pw};" ++ "|".intercalate (vals.map (fun (s, g) => s!"{s.name}@{s.nid}@{g}"))))
+      | _, _ => "bad-op"
   | "dec.run" :: rest => some <|
       match rest.mapM parseTerm with
       | none => "bad-op"
